@@ -21,7 +21,7 @@ REQUIRED = ["alias.solves"]
 ASSUMPTIONS = ["results compared with == on the full 8-tuple (the code is deterministic)"]
 TIMEOUT = 1800
 STEPS = [(p, h) for p in (True, False) for h in ("same", "fresh", "copy")]
-TABLE = [("G-DEAD", 350), ("G-ACY", 200), ("G-CYC", 200), ("G-LEX", 150), ("G-TIE", 100), ("FIG55", 20), ("G-ACYNF", 150), ("G-CYCNF", 100), ("G-TINYB", 100), ("G-DUPL", 150), ("G-MIX", 250)]
+TABLE = [("G-DEAD", 350), ("G-ACY", 200), ("G-CYC", 200), ("G-LEX", 150), ("G-TIE", 100), ("FIG55", 20), ("G-ACYNF", 150), ("G-CYCNF", 100), ("G-TINYB", 100), ("G-DUPL", 150), ("G-MIX", 250), ("G-FINREP", 100)]
 
 
 def fig55():
@@ -290,12 +290,21 @@ def decide_xproc(idx, seed):
     return res
 
 
-def plan(tier, seed):
+def _plan_base(tier, seed):
     return sc.plan_classes(tier, TABLE, per_q=25, per_t=100, mult_t=8) + harness.split("BATCH", 60 if tier == "quick" else 600, 10) + \
         harness.split("XPROC", 12 if tier == "quick" else 120, 1 if tier == "quick" else 4)
 
 
+def plan(tier, seed):
+    from . import threads_common
+    return threads_common.plan_threads(tier) + _plan_base(tier, seed)
+
+
 def run_batch(batch):
+    if batch["cls"] == "THREADS":
+        from . import threads_common
+        yield from threads_common.run(batch, PID, None, EMIT_START, 'solve', None)
+        return
     monitors.install()
     for idx in range(batch["start"], batch["start"] + batch["count"]):
         EMIT_START(idx)
@@ -314,6 +323,9 @@ def run_batch(batch):
 
 
 def replay(case):
+    if "threads" in case:
+        from . import threads_common
+        return threads_common.replay(case, PID, None, 'solve', None)
     monitors.install()
     if "batch" in case:
         return decide_batch(case["batch"], case.get("seed", 0))
